@@ -96,6 +96,11 @@ def rule_long_constants(run, prog, rid="R-11.8"):
              "exponent, a long hexadecimal mantissa), returns one CONSTANT spanning the whole constant and reports nothing", floor=1)
     fn = prog.method("Lexer", "get_next_token")
     run.require(fn is not None, "anchor vanished: Lexer.get_next_token")
+    from .c05_regex import ambiguous_lexer_pattern
+    amb = ambiguous_lexer_pattern(prog)
+    if amb is not None:
+        raise Undecided(f"the lexer pattern {amb} is exponentially ambiguous (reported by R-5.10 under C05): long constants are not fed "
+                        f"through it by the analyser's interpreter")
     bad, n = None, 0
     try:
         for k in (70, 300):
